@@ -2138,6 +2138,10 @@ def _iter_items(v):
     if isinstance(v, App) and v.name == 'dict.items' and isinstance(v.args[0], DictV) and not v.args[0].has_symbolic():
         d = v.args[0]
         return [Tup((Const(k), d.get(k))) for k in d.keys()]
+    if isinstance(v, App) and v.name in ('dict.keys', 'dict.values') and isinstance(v.args[0], DictV) \
+            and not v.args[0].has_symbolic():
+        d = v.args[0]
+        return [Const(k) if v.name == 'dict.keys' else d.get(k) for k in d.keys()]
     if isinstance(v, DictV) and not v.has_symbolic():
         return [Const(k) for k in v.keys()]
     return None
@@ -2189,6 +2193,8 @@ def _index(base, k):
         if -len(base.v) <= k < len(base.v):
             return Const(base.v[k])
         return Unknown('string index out of range')
+    if isinstance(base, Obj) and isinstance(base.fields.get('__data__'), DictV) and isinstance(k, Const):
+        return _index(base.fields['__data__'], k)       # a record object with keyed columns (table row)
     if isinstance(base, DictV) and isinstance(k, Const):
         v = base.get(k.v)
         if v is not None and not (isinstance(v, Const) and v.v == '__absent__'):
